@@ -84,7 +84,7 @@ def cases(rng, tier, X):
     if tier == 'thorough':
         out += [c for c in F.small_scope(4, symbols={'dA', 'dB', 'dA1', 'rA', 'rB1', 'eA', 'qA', 'lB1', 'p1'}) if c[0].count('_') == 4]
     # universal traffic (every frame type / sender / path / service / boundary value, 1..3 interfaces): this check's predicate on it
-    for k in range(60 if tier == 'quick' else 6000):
+    for k in range(150 if tier == 'quick' else 6000):
         out.append(('u%d' % k, F.universal(rng)))
         if k % 2 == 0:
             # the same kind of traffic with transmit refusals (the only platform fault this predicate is stated for) injected at random points
